@@ -503,10 +503,11 @@ class ITerm2Image(GraphicsImage, metaclass=ITerm2ImageMeta):
                 except (ValueError, AttributeError):
                     pass
 
-            # A negative status determined while queries are disabled is not definite
-            if not (cls._supported or utils._queries_enabled):
-                cls._supported = None
-                return False
+            # A status determined while queries are disabled is not definite: the
+            # terminal's name/version may have been taken from the environment.
+            if not utils._queries_enabled:
+                supported, cls._supported = cls._supported, None
+                return supported
 
         return cls._supported
 
